@@ -459,8 +459,8 @@ func onFormatBranch(c *Ctx, in ssa.Instruction) bool {
 			} else {
 				hc, _ = cv.(*ssa.Call)
 			}
-			if hc != nil && hc.Call.StaticCallee() != nil && IsRepoFunc(hc.Call.StaticCallee()) && hc.Call.StaticCallee().Blocks != nil {
-				h := hc.Call.StaticCallee()
+			if hc != nil && staticCallee(hc) != nil && IsRepoFunc(staticCallee(hc)) && staticCallee(hc).Blocks != nil {
+				h := staticCallee(hc)
 				n, all := 0, true
 				for _, hb := range h.Blocks {
 					if r, isR := hb.Instrs[len(hb.Instrs)-1].(*ssa.Return); isR {
@@ -610,7 +610,7 @@ func ruleR6(c *Ctx, id string) {
 			} else {
 				hc, _ = v.(*ssa.Call)
 			}
-			if hc == nil || hc.Call.StaticCallee() != st.sc.Fn || st.sc.Fn == do {
+			if hc == nil || staticCallee(hc) != st.sc.Fn || st.sc.Fn == do {
 				return false
 			}
 			n := 0
